@@ -156,7 +156,7 @@ impl Bitstring128 {
 
     /// Smallest finite value.
     pub const MIN: Self = Bitstring128(FixedBinaryBuf::from_le_bytes([
-        255, 252, 243, 207, 63, 255, 252, 243, 207, 63, 255, 252, 243, 143, 255, 247,
+        255, 252, 243, 207, 63, 255, 252, 243, 207, 63, 255, 252, 243, 207, 255, 247,
     ]));
 
     /// Smallest positive normal value.
@@ -166,7 +166,7 @@ impl Bitstring128 {
 
     /// Largest finite value.
     pub const MAX: Self = Bitstring128(FixedBinaryBuf::from_le_bytes([
-        255, 252, 243, 207, 63, 255, 252, 243, 207, 63, 255, 252, 243, 143, 255, 119,
+        255, 252, 243, 207, 63, 255, 252, 243, 207, 63, 255, 252, 243, 207, 255, 119,
     ]));
 
     /// Minimum possible normal power of 10 exponent.
